@@ -806,28 +806,50 @@ Proof.
   - (* join *)
     destruct (nth_error (c_t c) i) as [t|] eqn:Et; [|exists c; split; [reflexivity|exact I]].
     destruct t; try (exists c; split; [reflexivity|exact I]).
-    destruct (lookup (c_s c) (j_group j)) as [s' gid] eqn:El.
-    destruct (lookup_inv _ _ _ _ _ I El) as [I' [Hin _]].
-    destruct (mutate k s' gid j (lid_of k j i)) as [s'' r] eqn:Em.
-    eexists. split; [reflexivity|]. simpl.
-    eapply mutate_inv; eassumption.
+    + destruct (lookup (c_s c) (j_group j)) as [s' gid] eqn:El.
+      destruct (lookup_inv _ _ _ _ _ I El) as [I' [Hin _]].
+      destruct (mutate k s' gid j (lid_of k j i)) as [s'' r] eqn:Em.
+      eexists. split; [reflexivity|]. simpl.
+      eapply mutate_inv; eassumption.
+    + destruct (closing i (c_cl c) && negb (nmem i (c_dead c))); eexists; (split; [reflexivity|exact I]).
+    + destruct (closing i (c_cl c) && negb (nmem i (c_dead c))); eexists; (split; [reflexivity|exact I]).
   - (* leave *)
     destruct (nth_error (c_t c) i) as [t|] eqn:Et; [|exists c; split; [reflexivity|exact I]].
     destruct t; try (exists c; split; [reflexivity|exact I]).
-    destruct (nth_error reqs jt) as [[j| | | |]|] eqn:Ej; try (exists c; split; [reflexivity|exact I]).
-    destruct (nth_error (c_t c) jt) as [tj|] eqn:Etj; [|exists c; split; [reflexivity|exact I]].
-    destruct tj; try (exists c; split; [reflexivity|exact I]).
-    assert (Hne : i <> jt) by (intro; subst; congruence).
-    assert (Hti : nth_error (upd (c_t c) jt TLeft) i = Some TInit) by (rewrite nth_error_upd_other by congruence; exact Et).
-    destruct (kind_http_dec k) as [Hk|Hk].
-    + exists (let s' := leave_http (c_s c) (j_group j) (j_m j) in set_t (set_t c s' jt TLeft) s' i TDone). split.
-      * rewrite Hk. reflexivity.
-      * simpl. destruct (leave_http_inv _ _ _ _ _ _ Hk I Ej Etj) as [I' _].
+    + (* first step *)
+      destruct (nth_error reqs jt) as [[j| | | |]|] eqn:Ej; try (exists c; split; [reflexivity|exact I]).
+      destruct (nth_error (c_t c) jt) as [tj|] eqn:Etj; [|exists c; split; [reflexivity|exact I]].
+      destruct tj; try (exists c; split; [reflexivity|exact I]).
+      assert (Hne : i <> jt) by (intro; subst; congruence).
+      destruct (kind_http_dec k) as [Hk|Hk].
+      * assert (Hti : nth_error (upd (c_t c) jt TLeft) i = Some TInit) by (rewrite nth_error_upd_other by congruence; exact Et).
+        exists (let s' := leave_http (c_s c) (j_group j) (j_m j) in set_t (set_t c s' jt TLeft) s' i TDone). split.
+        { rewrite Hk. reflexivity. }
+        simpl. destruct (leave_http_inv _ _ _ _ _ _ Hk I Ej Etj) as [I' _].
         eapply Inv_thr_passive; [exact I'|exact Hti|exact Logic.I|exact Logic.I].
-    + destruct (leave_chan_inv (c_s c) _ _ _ _ _ Hk I Ej Etj) as [s' [Hs' [I' _]]].
-      exists (set_t (set_t c s' jt TLeft) s' i TDone). split.
-      * destruct k; try congruence; rewrite Hs'; reflexivity.
-      * simpl. eapply Inv_thr_passive; [exact I'|exact Hti|exact Logic.I|exact Logic.I].
+      * assert (Hs : exists c', (if closing jt (c_cl c) then Run c else Run (set_t (add_cl c jt gid) (c_s c) i TLeaving)) = Run c' /\
+                       Inv (s_tab (c_s c')) (s_heap (c_s c')) (c_t c')).
+        { destruct (closing jt (c_cl c)); eexists; (split; [reflexivity|]); [exact I|]. simpl.
+          eapply Inv_thr_passive; [exact I|exact Et|exact Logic.I|exact Logic.I]. }
+        destruct k; try congruence; exact Hs.
+    + (* second step *)
+      destruct (kind_http_dec k) as [Hk|Hk]; [exists c; split; [rewrite Hk; reflexivity|exact I]|].
+      assert (Hs : exists c', match nth_error reqs jt, nth_error (c_t c) jt with
+           | Some (QJoin j), Some (TMember gid _) =>
+               match leave_chan k (c_s c) gid (Z.of_nat jt) with
+               | None => Crashed
+               | Some s' => Run (set_t (set_t c s' jt TLeft) s' i TDone)
+               end
+           | _, _ => Run c end = Run c' /\ Inv (s_tab (c_s c')) (s_heap (c_s c')) (c_t c')).
+      { destruct (nth_error reqs jt) as [[j| | | |]|] eqn:Ej; try (exists c; split; [reflexivity|exact I]).
+        destruct (nth_error (c_t c) jt) as [tj|] eqn:Etj; [|exists c; split; [reflexivity|exact I]].
+        destruct tj; try (exists c; split; [reflexivity|exact I]).
+        assert (Hne : i <> jt) by (intro; subst; congruence).
+        assert (Hti : nth_error (upd (c_t c) jt TLeft) i = Some TLeaving) by (rewrite nth_error_upd_other by congruence; exact Et).
+        destruct (leave_chan_inv (c_s c) _ _ _ _ _ Hk I Ej Etj) as [s' [Hs' [I' _]]].
+        exists (set_t (set_t c s' jt TLeft) s' i TDone). split; [rewrite Hs'; reflexivity|].
+        simpl. eapply Inv_thr_passive; [exact I'|exact Hti|exact Logic.I|exact Logic.I]. }
+      destruct k; try congruence; exact Hs.
   - (* connection *)
     destruct (nth_error (c_t c) i) as [t|] eqn:Et; [|exists c; split; [reflexivity|exact I]].
     destruct t; try (exists c; split; [reflexivity|exact I]).
@@ -854,7 +876,7 @@ Proof.
       * eexists. split; [reflexivity|]. simpl.
         eapply Inv_thr_passive; [|exact Et|exact Logic.I|exact Logic.I].
         eapply Inv_heap_same; [exact I|exact Eg|]. destruct (gen =? g_gen g); [apply same_proj_set_wk|apply same_proj_refl].
-      * destruct (zmem who (g_lns g)); [|exists c; split; [reflexivity|exact I]].
+      * destruct (can_receive c gid who); [|exists c; split; [reflexivity|exact I]].
         eexists. split; [reflexivity|]. simpl. eapply Inv_thr_passive; [exact I|exact Et|exact Logic.I|exact Logic.I].
   - destruct (nth_error (c_t c) i) as [t|] eqn:Et; [|exists c; split; [reflexivity|exact I]].
     destruct t; try (exists c; split; [reflexivity|exact I]).
@@ -1035,16 +1057,17 @@ Qed.
 Lemma handoff_to_member : forall k reqs i c c' r who gid gen m,
   k <> KHttp -> nth_error reqs i = Some (QConn r who) -> nth_error (c_t c) i = Some (THeld gid gen) ->
   step k reqs i c = Run c' -> nth_error (c_t c') i = Some (TConn (CTo m)) ->
-  m = who /\ exists g, nth_error (s_heap (c_s c)) gid = Some g /\ In m (g_lns g) /\ g_closed g = false.
+  m = who /\ can_receive c gid who = true /\
+  exists g, nth_error (s_heap (c_s c)) gid = Some g /\ g_closed g = false.
 Proof.
   intros k reqs i c c' r who gid gen m Hk Hr Ht Hs Hc.
   unfold step, stepg in Hs. rewrite Hr, Ht in Hs.
   destruct (nth_error (s_heap (c_s c)) gid) as [g|] eqn:Eg; [|inversion Hs; subst; congruence].
   destruct (g_closed g) eqn:Ec.
   - inversion Hs; subst. simpl in Hc. rewrite nth_error_upd_same in Hc by (eapply nth_error_lt; exact Ht). discriminate.
-  - destruct (zmem who (g_lns g)) eqn:Ez; [|inversion Hs; subst; congruence].
+  - destruct (can_receive c gid who) eqn:Ez; [|inversion Hs; subst; congruence].
     inversion Hs; subst. simpl in Hc. rewrite nth_error_upd_same in Hc by (eapply nth_error_lt; exact Ht).
-    inversion Hc; subst. split; [reflexivity|]. exists g. apply zmem_In in Ez. auto.
+    inversion Hc; subst. split; [reflexivity|]. split; [reflexivity|]. exists g. auto.
 Qed.
 
 (* http: request number n (counting from 1) after counter value i0 goes to pxyNames[(i0+n) mod len] *)
@@ -1072,8 +1095,9 @@ Definition wj (par : list Z) (port m : Z) : req :=
            j_os := true; j_lis := true; j_mux := true |}.
 Definition old_reqs (par : list Z) (port : Z) : list req :=
   [wj par port 1; wj par port 2; QLeave 0%nat; QLeave 1%nat; wj par port 3].
-(* J0 joins | J1 looks the group up | last leave of J0 | J1 mutates the detached object | J1 leaves *)
-Definition old_sched : list nat := [0; 0; 1; 2; 1; 3]%nat.
+(* J0 joins | J1 looks the group up | last leave of J0 (close(closeCh); CloseListener) | J1 mutates the
+   detached object | J1 leaves *)
+Definition old_sched : list nat := [0; 0; 1; 2; 2; 1; 3; 3]%nat.
 
 Lemma old_two_step_join_crashes_tcp :
   run2 KTcp (old_reqs [1] 21300) old_sched (init 21300 21399 (old_reqs [1] 21300)) = Crashed.
@@ -1140,4 +1164,156 @@ Proof.
   pose proof (L _ _ Hg Hm) as Hin. rewrite <- Hn.
   eapply recreate_http; try eassumption; try congruence.
   apply In_tab_get; assumption.
+Qed.
+
+(* ------------------------------------------------------------------ *)
+(* no connection is lost while its group has a member (tcp / tcpmux)   *)
+(* ------------------------------------------------------------------ *)
+Definition WK (h : list grp) : Prop := forall gid g, nth_error h gid = Some g -> g_ep g = true -> g_wk g = true.
+
+Lemma WK_upd : forall h gid g', WK h -> (g_ep g' = true -> g_wk g' = true) -> WK (upd h gid g').
+Proof.
+  intros h gid g' W H gid' g0 H0 He. apply upd_cases in H0. destruct H0 as [[_ ->]|[_ H0]]; [auto|eapply W; eassumption].
+Qed.
+
+Lemma lookup_wk : forall s n s' gid, WK (s_heap s) -> lookup s n = (s', gid) -> WK (s_heap s').
+Proof.
+  intros s n s' gid W H. unfold lookup in H. destruct (tab_get (s_tab s) n); inversion H; subst; [exact W|].
+  simpl. intros gid' g0 H0 He. apply nth_error_app_cases in H0. destruct H0 as [H0|[_ ->]]; [eapply W; eassumption|discriminate].
+Qed.
+
+Lemma mutate_wk : forall k s gid j lid s' r, k <> KHttp -> WK (s_heap s) -> mutate k s gid j lid = (s', r) -> WK (s_heap s').
+Proof.
+  intros k s gid j lid s' r Hk W H. unfold mutate in H.
+  destruct (nth_error (s_heap s) gid) as [g|] eqn:Hg; [|inversion H; subst; exact W].
+  destruct k; [| congruence |].
+  - destruct (is_nil (g_lns g)).
+    + destruct (acquire s j); [|inversion H; subst; exact W].
+      destruct (negb (j_lis j)); inversion H; subst; [exact W|]. simpl. apply WK_upd; [exact W|reflexivity].
+    + repeat match type of H with (if ?c then _ else _) = _ => destruct c end; inversion H; subst; try exact W.
+      simpl. apply WK_upd; [exact W|]. simpl. apply (W _ _ Hg).
+  - repeat match type of H with (if ?c then _ else _) = _ => destruct c end; inversion H; subst; try exact W;
+      simpl; (apply WK_upd; [exact W|]); simpl; try reflexivity. apply (W _ _ Hg).
+Qed.
+
+Lemma leave_chan_wk : forall k s gid lid s', WK (s_heap s) -> leave_chan k s gid lid = Some s' -> WK (s_heap s').
+Proof.
+  intros k s gid lid s' W H. unfold leave_chan in H.
+  destruct (nth_error (s_heap s) gid) as [g|] eqn:Hg; [|inversion H; subst; exact W].
+  destruct (is_nil (remove_first lid (g_lns g))).
+  - destruct (g_closed g); [discriminate|]. inversion H; subst. simpl. apply WK_upd; [exact W|]. simpl. discriminate.
+  - inversion H; subst. simpl. apply WK_upd; [exact W|]. simpl. apply (W _ _ Hg).
+Qed.
+
+Section Lost.
+Variable k : kind.
+Variable reqs : list req.
+Hypothesis Hk : k <> KHttp.
+
+Definition Good (c : cfg) : Prop := InvC k reqs c /\ WK (s_heap (c_s c)) /\ c_lost c = false.
+
+Lemma closed_no_members : forall c gid g, InvC k reqs c -> nth_error (s_heap (c_s c)) gid = Some g ->
+  g_closed g = true -> g_lns g = [] /\ g_ep g = false.
+Proof.
+  intros c gid g [K V TV L E M U ND B] Hg Hc.
+  assert (Hmem : members k g = g_lns g) by (destruct k; try reflexivity; congruence).
+  assert (Hm : members k g = []).
+  { destruct (members k g) eqn:Em; [reflexivity|]. exfalso.
+    assert (Hne : members k g <> []) by congruence.
+    destruct (TV _ _ (L _ _ Hg Hne)) as [g1 [Hg1 [Hc1 _]]]. congruence. }
+  split; [congruence|]. destruct (g_ep g) eqn:Ee; [|reflexivity]. exfalso. apply (E _ _ Hg); assumption.
+Qed.
+
+Lemma step_good : forall i c, Good c -> exists c', step k reqs i c = Run c' /\ Good c'.
+Proof.
+  intros i c [I [W Lo]]. destruct (step_inv k reqs i c I) as [c' [Hs I']]. exists c'. split; [exact Hs|].
+  split; [exact I'|]. clear I'. unfold step, stepg in Hs.
+  destruct (nth_error reqs i) as [[j|jt|r who|r|r]|] eqn:Er; [| | | | |inversion Hs; subst; auto].
+  - destruct (nth_error (c_t c) i) as [t|] eqn:Et; [|inversion Hs; subst; auto].
+    destruct t; try (inversion Hs; subst; auto; fail).
+    + destruct (lookup (c_s c) (j_group j)) as [s' gid] eqn:El.
+      destruct (mutate k s' gid j (lid_of k j i)) as [s'' r] eqn:Em. inversion Hs; subst. simpl.
+      split; [|exact Lo]. eapply mutate_wk; [exact Hk| |exact Em]. eapply lookup_wk; eassumption.
+    + destruct (closing i (c_cl c) && negb (nmem i (c_dead c))); inversion Hs; subst; auto.
+    + destruct (closing i (c_cl c) && negb (nmem i (c_dead c))); inversion Hs; subst; auto.
+  - destruct (nth_error (c_t c) i) as [t|] eqn:Et; [|inversion Hs; subst; auto].
+    destruct t; try (inversion Hs; subst; auto; fail).
+    + destruct (nth_error reqs jt) as [[j| | | |]|]; try (inversion Hs; subst; auto; fail).
+      destruct (nth_error (c_t c) jt) as [tj|]; [|inversion Hs; subst; auto].
+      destruct tj; try (inversion Hs; subst; auto; fail).
+      destruct k; try congruence; (destruct (closing jt (c_cl c)); inversion Hs; subst; auto).
+    + destruct k eqn:Ek; try congruence;
+        (destruct (nth_error reqs jt) as [[j| | | |]|]; try (inversion Hs; subst; auto; fail);
+         destruct (nth_error (c_t c) jt) as [tj|]; [|inversion Hs; subst; auto];
+         destruct tj; try (inversion Hs; subst; auto; fail);
+         match type of Hs with match ?x with _ => _ end = _ => destruct x as [s'|] eqn:El end; [|discriminate];
+         inversion Hs; subst; simpl; split; [eapply leave_chan_wk; eassumption|exact Lo]).
+  - destruct (nth_error (c_t c) i) as [t|] eqn:Et; [|inversion Hs; subst; auto].
+    destruct t; try (inversion Hs; subst; auto; fail).
+    + destruct (find_ep k (c_s c) r) as [gid|] eqn:Ef; [|inversion Hs; subst; auto].
+      destruct (nth_error (s_heap (c_s c)) gid) as [g|] eqn:Eg; [|inversion Hs; subst; auto].
+      assert (Hwk : g_wk g = true).
+      { unfold find_ep in Ef. apply find_ep_from_some in Ef. destruct Ef as [g0 [_ [H0 [He _]]]].
+        rewrite Nat.sub_0_r in H0. assert (g0 = g) by congruence. subst g0. apply (W _ _ Eg He). }
+      destruct k; try congruence; rewrite Hwk in Hs;
+        (destruct (existsb (is_held gid (g_gen g)) (c_t c)); inversion Hs; subst; auto).
+    + destruct (nth_error (s_heap (c_s c)) gid) as [g|] eqn:Eg; [|inversion Hs; subst; auto].
+      destruct (g_closed g) eqn:Ec.
+      * destruct (closed_no_members c gid g I Eg Ec) as [Hl He].
+        inversion Hs; subst. simpl. split.
+        -- apply WK_upd; [exact W|]. destruct (gen =? g_gen g); simpl; congruence.
+        -- rewrite Lo, Hl. reflexivity.
+      * destruct (can_receive c gid who); inversion Hs; subst; auto.
+  - destruct (nth_error (c_t c) i) as [t|] eqn:Et; [|inversion Hs; subst; auto].
+    destruct t; try (inversion Hs; subst; auto; fail).
+    destruct (rmem r (s_used (c_s c))); inversion Hs; subst; auto.
+  - destruct (nth_error (c_t c) i) as [t|] eqn:Et; [|inversion Hs; subst; auto].
+    destruct t; try (inversion Hs; subst; auto; fail).
+    destruct (rmem r (s_env (c_s c))); inversion Hs; subst; auto.
+Qed.
+
+Lemma run_good : forall sched c, Good c -> exists c', run k reqs sched (Run c) = Run c' /\ Good c'.
+Proof.
+  induction sched as [|i sched IH]; intros c G; [exists c; split; [reflexivity|exact G]|].
+  destruct (step_good i c G) as [c1 [H1 G1]]. destruct (IH c1 G1) as [c' [H' G']].
+  exists c'. split; [|exact G']. unfold run in *. simpl. fold (step k reqs i c). rewrite H1. exact H'.
+Qed.
+
+Lemma init_good : forall lo hi n, Good (init_cfg lo hi n).
+Proof.
+  intros. split; [apply init_inv|]. split; [|reflexivity].
+  intros gid g H. destruct (nth_error_nil_inv _ _ _ H).
+Qed.
+End Lost.
+
+(* for all request lists and schedules: no connection is ever dropped or left in the backlog while
+   its group has a member *)
+Theorem never_lost_while_member_live : forall k reqs sched lo hi c,
+  k <> KHttp -> run k reqs sched (init lo hi reqs) = Run c -> c_lost c = false.
+Proof.
+  intros k reqs sched lo hi c Hk H.
+  destruct (run_good k reqs Hk sched _ (init_good k reqs lo hi (length reqs))) as [c' [H' [_ [_ L]]]].
+  unfold init in H. rewrite H in H'. inversion H'; subst. exact L.
+Qed.
+
+(* ... and a connection the worker holds can be handed over as soon as any current member's accept
+   loop runs: the hand-off step with that member as receiver delivers it *)
+Theorem held_connection_deliverable : forall k reqs sched lo hi c i r who gid gen w p,
+  k <> KHttp -> run k reqs sched (init lo hi reqs) = Run c ->
+  nth_error reqs i = Some (QConn r who) -> nth_error (c_t c) i = Some (THeld gid gen) ->
+  who = Z.of_nat w -> (exists j, nth_error reqs w = Some (QJoin j)) ->
+  nth_error (c_t c) w = Some (TMember gid p) -> nmem w (c_dead c) = false ->
+  exists c', step k reqs i c = Run c' /\ nth_error (c_t c') i = Some (TConn (CTo who)).
+Proof.
+  intros k reqs sched lo hi c i r who gid gen w p Hk H Hr Ht Hw [j Hj] Hm Hd.
+  destruct (run_from_init k reqs sched lo hi) as [c0 [H0 I]]. rewrite H in H0. inversion H0; subst c0. clear H0.
+  pose proof I as [K V TV L E M U ND B].
+  destruct (M _ _ _ _ Hj Hm) as [g [Hg [Hl Hn]]].
+  assert (Hne : members k g <> []) by (intro Hx; rewrite Hx in Hl; exact Hl).
+  destruct (TV _ _ (L _ _ Hg Hne)) as [g1 [Hg1 [Hc _]]]. assert (g1 = g) by congruence. subst g1.
+  unfold step, stepg. rewrite Hr, Ht, Hg, Hc.
+  assert (Hcr : can_receive c gid who = true).
+  { unfold can_receive. subst who. rewrite Nat2Z.id, Hm, Hd, Nat.eqb_refl. simpl.
+    destruct (0 <=? Z.of_nat w) eqn:E0; [reflexivity|]. apply Z.leb_gt in E0. lia. }
+  rewrite Hcr. eexists. split; [reflexivity|]. simpl. apply nth_error_upd_same. eapply nth_error_lt. exact Ht.
 Qed.
